@@ -348,6 +348,22 @@ func main() {
 	facts = append(facts, fact{"ord_flush_manifest_wal", "op", before("levels.go", "levelsController", "addLevel0Table", "manifest.addChanges", "tryAddLevel0Table"), "levels.go:addLevel0Table [manifest record vs publishing the table]"})
 	facts = append(facts, fact{"ord_compact_manifest_replace", "op", before("levels.go", "levelsController", "runCompactDef", "manifest.addChanges", "replaceTables"), "levels.go:runCompactDef [manifest vs replaceTables]"})
 	facts = append(facts, fact{"ord_compact_replace_delete", "op", before("levels.go", "levelsController", "runCompactDef", "replaceTables", "deleteTables"), "levels.go:runCompactDef [replaceTables vs deleteTables]"})
+	// durability of a commit (C10): every request's WAL is msynced inside writeToLSM, i.e. once per
+	// request and on the memtable that request was written to (ensureRoomForWrite may rotate the
+	// memtable between two requests of one writeRequests call); writeRequests itself has no
+	// SyncWAL; valueLog.write msyncs the value log in its deferred function
+	has := func(rel, recv, fn, frag string) string {
+		if firstPos(rel, recv, fn, frag) >= 0 {
+			return "yes"
+		}
+		return "no"
+	}
+	facts = append(facts, fact{"has_writeToLSM_syncwal", "op", has("db.go", "DB", "writeToLSM", "db.mt.SyncWAL()"), "db.go:DB.writeToLSM [contains db.mt.SyncWAL()]"})
+	facts = append(facts, fact{"has_writeRequests_syncwal", "op", has("db.go", "DB", "writeRequests", "SyncWAL()"), "db.go:DB.writeRequests [contains SyncWAL()]"})
+	facts = append(facts, fact{"ord_writeToLSM_put_sync", "op", before("db.go", "DB", "writeToLSM", "db.mt.Put(", "db.mt.SyncWAL()"), "db.go:writeToLSM [mt.Put vs SyncWAL]"})
+	facts = append(facts, fact{"ord_writeRequests_room_lsm", "op", before("db.go", "DB", "writeRequests", "db.ensureRoomForWrite()", "db.writeToLSM(b)"), "db.go:writeRequests [ensureRoomForWrite vs writeToLSM]"})
+	facts = append(facts, fact{"ord_writeRequests_lsm_done", "op", before("db.go", "DB", "writeRequests", "db.writeToLSM(b)", "done(nil)"), "db.go:writeRequests [writeToLSM vs done(nil)]"})
+	facts = append(facts, fact{"has_vlogwrite_sync", "op", has("value.go", "valueLog", "write", "curlf.Sync()"), "value.go:valueLog.write [contains curlf.Sync()]"})
 	facts = append(facts, fact{"ord_commit_lock_ts", "op", before("txn.go", "Txn", "commitAndSend", "writeChLock.Lock()", "newCommitTs"), "txn.go:commitAndSend [writeChLock vs newCommitTs]"})
 	facts = append(facts, fact{"ord_commit_ts_send", "op", before("txn.go", "Txn", "commitAndSend", "newCommitTs", "sendToWriteCh"), "txn.go:commitAndSend [newCommitTs vs sendToWriteCh]"})
 	facts = append(facts, fact{"ord_commit_wait_done", "op", before("txn.go", "Txn", "commitAndSend", "req.Wait()", "orc.doneCommit(commitTs)\n\t\treturn err"), "txn.go:commitAndSend [req.Wait vs doneCommit]"})
